@@ -159,7 +159,15 @@ func zzPick(fr *frame, args []value) value {
 	v := m.fresh(tag, sInt)
 	m.assume("(and (>= " + v + " 0) (< " + v + " " + strconv.Itoa(n) + "))")
 	m.bounds[tag] = fmt.Sprintf("index [0,%d)", n)
-	return mkInt(v, types.Int, 0, int64(n-1))
+	r := mkInt(v, types.Int, 0, int64(n-1))
+	if n <= 64 {
+		opts := make([]value, n)
+		for i := range opts {
+			opts[i] = i
+		}
+		r.tbl = newChoice(v, opts)
+	}
+	return r
 }
 
 func zzOneOf(fr *frame, args []value) value {
@@ -190,6 +198,7 @@ func zzOneOf(fr *frame, args []value) value {
 	m.bounds[tag] = fmt.Sprintf("one of %q", names)
 	r := mkStr(t)
 	r.lo, r.hi = 0, maxL
+	r.tbl = newChoice(v, append([]value{}, vals...))
 	return r
 }
 
